@@ -484,6 +484,17 @@ class SymInt:
     def __rpow__(s, b, m=None):
         return sym_pow(b, s, m)
 
+    def __format__(s, spec):
+        """format(n, '064x') / f'{n:064x}': Python insists on a real str, so a token string stands in for the symbolic hex
+        text; the models of unhexlify / int(.,16) / bytes.fromhex / join recognise the token (symx.env._detok)"""
+        import re
+        m = re.fullmatch(r"0(\d+)x", spec or "")
+        if not m:
+            raise EngineUnsupported("format spec %r of a symbolic int" % (spec,))
+        from . import env
+        h = env.sym_mod("%0" + m.group(1) + "x", s)
+        return env.hex_token(h)
+
     def to_bytes(s, length, byteorder="big", signed=False):
         if signed or isinstance(length, SymInt):
             raise EngineUnsupported("int.to_bytes with signed/symbolic length")
